@@ -26,6 +26,7 @@ import torch
 
 from .. import envs as E
 from .. import persist_util as PU
+from .. import policies as P
 from ..kernel import HarnessError, StopRun, Streams, patched
 from ..ref import data as R
 
@@ -67,7 +68,10 @@ class PolicyTap(torch.nn.Module):
     def forward(self, td, env=None, **kw):
         ids = self._ident(td)
         out = self.inner(td, env, **kw)
-        self.records.append({"ids": ids, "reward": [float(x) for x in out["reward"].detach().flatten().tolist()],
+        r = out["reward"].detach()
+        if r.dim() > 1:  # MDAM: [batch, paths]; its baseline value for an instance is the best path
+            r = r.max(1).values
+        self.records.append({"ids": ids, "reward": [float(x) for x in r.flatten().tolist()],
                              "decode_type": kw.get("decode_type"), "B": len(ids)})
         return out
 
@@ -119,8 +123,9 @@ class C17:
             "bool) and shape, one of the three bundled dataset classes (ExtraKeyDataset arises from "
             "add_key), 3-7 chooser-scheduled operations out of {read through a loader in one of 7 modes "
             "with a scheduled batch size (1, dividing, not dividing, >= N) for 1-3 epochs, add_key with "
-            "a scheduled name/dtype/shape, re-read of the un-wrapped data set}.  baseline runs: REINFORCE "
-            "x {rollout_only, warm-up(1), warm-up(2)} x 5 environments x 3 dataset classes x scheduled "
+            "a scheduled name/dtype/shape, re-read of the un-wrapped data set}.  baseline runs: {REINFORCE, MDAM "
+            "(tsp/cvrp, 3 decoder paths, baseline value = best path)} x {rollout_only, warm-up(1), warm-up(2)} x "
+            "{baseline by name, WarmupBaseline object, 'warmup' + inner baseline object} x 5 environments x 3 dataset classes x scheduled "
             "train/eval batch sizes x shuffle on/off, 2-3 epochs of train_dataloader / noise on the "
             "parameters / on_train_epoch_end.  Non-trivial = a shuffled or sampler-ordered read, a final "
             "partial batch, or an extra key travelled; distinct = distinct event-log digest.")
@@ -129,6 +134,7 @@ class C17:
                        "RL4COLitModule.setup/_dataloader/_dataloader_single/train_dataloader/on_train_epoch_end",
                        "REINFORCE.wrap_dataset/post_setup_hook/on_train_epoch_end",
                        "RolloutBaseline.setup/rollout/wrap_dataset/epoch_callback, WarmupBaseline",
+                       "MDAM.__init__ (baseline rollout override) + MDAMPolicy (embed 32, 2 layers, 3 paths)",
                        "RL4COEnvBase.dataset", "AttentionModelPolicy (embed 32, 1 layer), environments tsp/cvrp/"
                        "sdvrp/op/pctsp"]
     components_stub = ["environment generator (serves the plan's instances)", "training steps (seeded noise on the "
@@ -207,13 +213,18 @@ class C17:
         env = E.make_env(cfg)
         pool = E.gen_rows(env, cfg, rc.randint(14, 26), st.torch_seed("instances"))
         N = rc.choice([1, 2, 3, 4, 5, 6, 7, 8, 9, 11])
-        return {"mode": "baseline", "cfg": cfg, "pool": [E.enc_row(r) for r in pool],
+        plan = {"mode": "baseline", "cfg": cfg, "pool": [E.enc_row(r) for r in pool],
                 "policy_seed": rc.randrange(1 << 30), "baseline": rc.choice(BASELINES),
                 "bl_alpha": rc.choice([0.05, 0.5, 1.0, 1.0]), "dataset_cls": rc.choice(CLASSES),
                 "train_size": N, "val_size": rc.choice([3, 4, 5, 6]),
                 "batch_size": rc.choice([1, 2, 3, 4, N, N + 2]), "eval_bs": rc.choice([1, 2, 3, 4, 5, N, 64]),
                 "shuffle": rc.random() < 0.5, "epochs": rc.randint(2, 3),
                 "noise": [rc.randrange(1 << 30) for _ in range(3)], "noise_scale": rc.choice([0.0, 0.3, 1.0, 1.0])}
+        # the documented ways of handing the same baseline over: by name, as an object, as the inner baseline of
+        # 'warmup'; and MDAM (REINFORCE subclass whose baseline value is the best of its decoder paths)
+        plan["bl_form"] = rc.choice(["default", "default", "warmup_obj", "warmup_kw"])
+        plan["model"] = "mdam" if name in ("tsp", "cvrp") and rc.random() < 0.4 else "reinforce"
+        return plan
 
     @staticmethod
     def sample(run):
@@ -460,6 +471,17 @@ def _generic(run):
 # ------------------------------------------------------------------------------------------------
 # baseline runs
 # ------------------------------------------------------------------------------------------------
+def _per_instance(rewards, n):
+    """PU.greedy flattens the reward: one value per instance, or [n, paths] for a multi-path policy (MDAM),
+    whose value for an instance is its best path."""
+    if len(rewards) == n:
+        return list(rewards)
+    k = len(rewards) // n
+    if k * n != len(rewards):
+        raise HarnessError("reward layout")
+    return [max(rewards[i * k:(i + 1) * k]) for i in range(n)]
+
+
 def _rollout_baseline(model):
     from rl4co.models.rl.reinforce.baselines import RolloutBaseline, WarmupBaseline
 
@@ -472,12 +494,14 @@ def _rollout_baseline(model):
 
 
 def _baseline(run):
-    from rl4co.models.rl.reinforce.baselines import RolloutBaseline
+    from rl4co.models.rl.reinforce.baselines import RolloutBaseline, WarmupBaseline
 
     plan = run.plan
     cfg = plan["cfg"]
     name = cfg["env"]
-    scope = f"REINFORCE[{plan['baseline']}]"
+    mdam = plan.get("model") == "mdam"
+    form = plan.get("bl_form", "default") if plan["baseline"] != "rollout_only" else "default"
+    scope = f"{'MDAM' if mdam else 'REINFORCE'}[{plan['baseline']}" + ("" if form == "default" else f",{form}") + "]"
     pool = [E.dec_row(r) for r in plan["pool"]]
     N, M = plan["train_size"], plan["val_size"]
     bs, ebs = plan["batch_size"], plan["eval_bs"]
@@ -486,16 +510,37 @@ def _baseline(run):
     env.dataset_cls = _cls(plan["dataset_cls"])
     gen = PoolGenerator(env.generator, pool, cfg)
     env.generator = gen
-    policy = PolicyTap(PU.tiny_policy(name, plan["policy_seed"]), _ident_fn(name))
+    if mdam:
+        with run.guard(scope, "construct MDAMPolicy"):
+            inner = P.make_policy("mdam", name, plan["policy_seed"])
+    else:
+        inner = PU.tiny_policy(name, plan["policy_seed"])
+    policy = PolicyTap(inner, _ident_fn(name))
+    n_warm = 2 if plan["baseline"] == "warmup2" else 1
     if plan["baseline"] == "rollout_only":
         baseline, kw = RolloutBaseline(bl_alpha=plan["bl_alpha"]), {}
+    elif form == "warmup_obj":
+        baseline, kw = WarmupBaseline(RolloutBaseline(bl_alpha=plan["bl_alpha"]), n_epochs=n_warm), {}
+        run.probe("baseline_given_as_object")
+    elif form == "warmup_kw":
+        baseline = "warmup"
+        kw = {"baseline_kwargs": {"baseline": RolloutBaseline(bl_alpha=plan["bl_alpha"]), "n_epochs": n_warm}}
+        run.probe("baseline_given_as_object")
     else:
         baseline = "rollout"
-        kw = {"baseline_kwargs": {"n_epochs": 2 if plan["baseline"] == "warmup2" else 1,
-                                  "bl_alpha": plan["bl_alpha"]}}
-    with run.guard(scope, "construct REINFORCE"):
-        model = PU.tiny_reinforce(env, policy, baseline, batch_size=bs, val_batch_size=ebs, train_data_size=N,
-                                  val_data_size=M, test_data_size=1, shuffle_train_dataloader=plan["shuffle"], **kw)
+        kw = {"baseline_kwargs": {"n_epochs": n_warm, "bl_alpha": plan["bl_alpha"]}}
+    with run.guard(scope, "construct the model"):
+        if mdam:
+            from rl4co.models.zoo.mdam.model import MDAM
+
+            model = MDAM(env, policy, baseline, batch_size=bs, val_batch_size=ebs, train_data_size=N,
+                         val_data_size=M, test_data_size=1, shuffle_train_dataloader=plan["shuffle"],
+                         optimizer_kwargs={"lr": 1e-2}, **kw)
+            run.probe("mdam_model")
+        else:
+            model = PU.tiny_reinforce(env, policy, baseline, batch_size=bs, val_batch_size=ebs, train_data_size=N,
+                                      val_data_size=M, test_data_size=1, shuffle_train_dataloader=plan["shuffle"],
+                                      **kw)
     stub = types.SimpleNamespace(max_epochs=plan["epochs"], current_epoch=0, loggers=[], logger=None)
     model._trainer = stub
     warm, rb = _rollout_baseline(model)
@@ -522,7 +567,7 @@ def _baseline(run):
         if key not in solo_cache:
             with run.guard(scope, "solo greedy rollout of the baseline policy", promise=False):
                 _a, r = PU.greedy(pol.inner, env, E.batch_of(cfg, [row]))
-            solo_cache[key] = r[0]
+            solo_cache[key] = _per_instance(r, 1)[0]
         return solo_cache[key]
 
     torch.manual_seed(run.streams.torch_seed("setup"))
@@ -584,6 +629,16 @@ def _baseline(run):
                     if not w["active"]:
                         run.probe("obs_extra_while_warmup_alpha_0")
                         continue
+                    if row["extra"].numel() != 1:
+                        run.violate(scope, "extra_is_baseline_reward",
+                                    f"epoch {ep} batch {bi} row {ri}: the value attached to instance {it.index} has shape "
+                                    f"{list(row['extra'].shape)}; the baseline value of an instance is one number (the "
+                                    f"baseline policy's reward on it" + (", for MDAM the best of its decoder paths)"
+                                                                         if mdam else ")"),
+                                    constraint="extra_shape", epoch=ep, shape=list(row["extra"].shape),
+                                    instance=it.index, eval_bs=ebs, n=N, env=name, baseline=plan["baseline"],
+                                    form=form)
+                        raise StopRun()
                     got = float(row["extra"])
                     want = solo(w["policy"], it.row)
                     if abs(got - want) <= _tol(want):
@@ -605,6 +660,7 @@ def _baseline(run):
                             with run.guard(scope, "eval-mode replay of the baseline's evaluation batch", promise=False):
                                 _a, r_eval = PU.greedy(w["policy"].inner, env,
                                                        E.batch_of(cfg, [id2row[i] for i in call["ids"]]))
+                            r_eval = _per_instance(r_eval, len(call["ids"]))
                             if abs(r_eval[call["ids"].index(ident)] - got) > _tol(want):
                                 run.violate(scope, "extra_is_baseline_reward",
                                             f"epoch {ep} batch {bi} row {ri}: extra {got!r} for instance {it.index} is neither "
@@ -626,7 +682,7 @@ def _baseline(run):
                                 dataset=plan["dataset_cls"], env=name, baseline=plan["baseline"])
                     raise StopRun()
             run.log.add("train_epoch", ep, ps, bs, seq,
-                        [float(r["extra"]).hex() for b in batches for r in R.rows_of(b) if "extra" in r][:16])
+                        [float(r["extra"].flatten()[0]).hex() for b in batches for r in R.rows_of(b) if "extra" in r][:16])
             run.state(plan["dataset_cls"], name, bs, ebs, N, tuple(seq[:6]))
             if all(has_extra) and batches:
                 run.probe("extra_travelled")
@@ -796,6 +852,36 @@ def _canary_fastgen_last_index():
     return patched(TensorDictDatasetFastGeneration, "__getitems__", getitems)
 
 
+def _canary_mdam_generic_rollout():
+    """MDAM leaves the generic RolloutBaseline.rollout in place: a [paths] vector per instance is attached."""
+    import rl4co.models.zoo.mdam.model as M
+    from rl4co.models.rl.reinforce.baselines import RolloutBaseline
+
+    def _canary_rollout(self, *a, **k):
+        return RolloutBaseline.rollout(self, *a, **k)
+
+    return patched(M, "rollout", _canary_rollout)
+
+
+def _canary_mdam_rollout_first_path():
+    """MDAM's baseline rollout takes the first decoder path instead of the best one."""
+    import rl4co.models.zoo.mdam.model as M
+    from torch.utils.data import DataLoader
+
+    def _canary_rollout(self, model, env, batch_size=64, device="cpu", dataset=None):
+        dataset = self.dataset if dataset is None else dataset
+        model.eval()
+
+        def _canary_eval(batch):
+            with torch.inference_mode():
+                return model(env.reset(batch.to(device)), env, decode_type="greedy")["reward"][:, 0]
+
+        dl = DataLoader(dataset, batch_size=batch_size, collate_fn=dataset.collate_fn)
+        return torch.cat([_canary_eval(b) for b in dl], 0)
+
+    return patched(M, "rollout", _canary_rollout)
+
+
 C17.CANARIES = {
     "extra_idx_minus_1": _canary_extra_idx_minus_1,
     "collate_reversed": _canary_collate_reversed,
@@ -804,4 +890,6 @@ C17.CANARIES = {
     "dataloader_drop_last": _canary_dataloader_drop_last,
     "rollout_shuffled": _canary_rollout_shuffled,
     "fastgen_last_index": _canary_fastgen_last_index,
+    "mdam_generic_rollout": _canary_mdam_generic_rollout,
+    "mdam_rollout_first_path": _canary_mdam_rollout_first_path,
 }
